@@ -67,6 +67,9 @@ func (s *State) evalIndexAssigment(which ast.Node, index, value object.Object) o
 		return s.NewError("identifier not found: " + id.Literal())
 	}
 	val = object.Value(val) // deref.
+	// What we store must be values, not registers (or references) that can change later.
+	index = object.Value(index)
+	value = object.Value(value)
 	switch val.Type() {
 	case object.ARRAY:
 		idx, ok := Int64Value(index)
@@ -364,12 +367,12 @@ func (s *State) evalMapLiteral(node *ast.MapLiteral) object.Object {
 
 	for _, keyNode := range node.Order {
 		valueNode := node.Pairs[keyNode]
-		key := s.Eval(keyNode)
+		key := object.Value(s.Eval(keyNode)) // copy registers, we store the value.
 		if !object.Equals(key, key) {
 			log.Warnf("key %s is not hashable", key.Inspect())
 			return s.NewError("key " + key.Inspect() + " is not hashable")
 		}
-		value := s.Eval(valueNode)
+		value := object.Value(s.Eval(valueNode))
 		result = result.Set(key, value)
 	}
 	return result
@@ -513,7 +516,7 @@ func (s *State) evalBuiltin(node *ast.Builtin) object.Object {
 		if isError {
 			val = object.String{Value: val.(object.Error).Value}
 		}
-		return object.MakeQuad(ErrorKey, object.NativeBoolToBooleanObject(isError), object.ValueKey, val)
+		return object.MakeQuad(ErrorKey, object.NativeBoolToBooleanObject(isError), object.ValueKey, object.Value(val))
 	case token.ERROR, token.PRINT, token.PRINTLN, token.LOG:
 		return s.evalPrintLogError(node)
 	case token.FIRST:
